@@ -100,6 +100,16 @@ def vt(v, _d=0) -> frozenset:
     return frozenset(r)
 
 
+def size_t(v) -> frozenset:
+    """taint of the truth value / length of v: for a container only what decides which elements it has (its own taint),
+    not their values and not their order"""
+    if v is None:
+        return E
+    if v.kind in ("seq", "map", "tuple", "graph", "nodeview"):
+        return frozenset(v.t)
+    return vt(v)
+
+
 def add(v: V, t) -> V:
     if not t:
         return v
@@ -259,7 +269,7 @@ class TaintInterp:
         if isinstance(st, ast.If):
             c = self.ev(st.test, env, pc, fi)
             e1, e2 = dict(env), dict(env)
-            ct = vt(c)
+            ct = size_t(c)
             t1 = self.block(st.body, e1, fr, pc | ct)
             t2 = self.block(st.orelse, e2, fr, pc | ct)
             if t1 and t2:
@@ -284,7 +294,7 @@ class TaintInterp:
         if isinstance(st, ast.While):
             for _ in range(3):
                 c = self.ev(st.test, env, pc, fi)
-                self.block(st.body, env, fr, pc | vt(c))
+                self.block(st.body, env, fr, pc | size_t(c))
             return False
         if isinstance(st, ast.Assert):
             self.ev(st.test, env, pc, fi)
@@ -516,7 +526,8 @@ class TaintInterp:
         return sc(tt(a) | tt(b))
 
     def e_UnaryOp(self, e, env, pc, fi):
-        return sc(tt(self.ev(e.operand, env, pc, fi)))
+        v = self.ev(e.operand, env, pc, fi)
+        return sc(size_t(v) if isinstance(e.op, ast.Not) else tt(v))
 
     def e_BoolOp(self, e, env, pc, fi):
         r = None
@@ -542,7 +553,7 @@ class TaintInterp:
 
     def e_IfExp(self, e, env, pc, fi):
         c = self.ev(e.test, env, pc, fi)
-        return add(join(self.ev(e.body, env, pc, fi), self.ev(e.orelse, env, pc, fi)), vt(c))
+        return add(join(self.ev(e.body, env, pc, fi), self.ev(e.orelse, env, pc, fi)), size_t(c))
 
     def e_NamedExpr(self, e, env, pc, fi):
         v = self.ev(e.value, env, pc, fi)
@@ -563,6 +574,7 @@ class TaintInterp:
         ot = set()
         oid = None
         filtered = False
+        member_t: set = set()
         for i, g in enumerate(e.generators):
             it = self.ev(g.iter, env2, pc, fi)
             el, o = self.iterate(it, fi, g.iter)
@@ -574,11 +586,12 @@ class TaintInterp:
             self.assign(g.target, el, env2, pc, fi)
             for c in g.ifs:
                 cv = self.ev(c, env2, pc, fi)
-                ot |= vt(cv) & set()      # filtering keeps the relative order
+                member_t |= size_t(cv)    # filtering keeps the relative order; which elements stay depends on the test
                 filtered = True
         if filtered:
             oid = ("filter", oid, id(e))
-        return mk(env2, frozenset(ot), oid)
+        out = mk(env2, frozenset(ot), oid)
+        return add(out, member_t) if member_t else out
 
     def e_ListComp(self, e, env, pc, fi):
         return self._comp(e, env, pc, fi, lambda env2, ot, oid: seq(self.ev(e.elt, env2, pc, fi), ot, oid))
@@ -754,7 +767,12 @@ class TaintInterp:
                 return seq(None, E, ("set", id(e)))
             el, ot = self.iterate(a[0], fi, e)
             return V("seq", E, el, self.src(HASH, fi, e, f"{name}(..): iteration order depends on hashing"), ("set", id(e)))
-        if name in ("len", "max", "min", "sum", "any", "all", "abs", "bool", "hash"):
+        if name in ("len", "bool"):
+            r = E
+            for x in a:
+                r |= size_t(x)
+            return sc(r)
+        if name in ("max", "min", "sum", "any", "all", "abs", "hash"):
             # order-insensitive consumers: only the values matter
             r = E
             for x in a:
